@@ -321,7 +321,65 @@ def amount_filter_membership(ctx, rule='A13g'):
                f'`{var}` is never used as a set in the filter: a range test accepts amounts that fall into a gap of the list')
 
 
+def open_choice_connectors(ctx, rule='A5'):
+    """get_unconnected_connectors, connector waiting on a connection choice that is still open: with no counterpart
+    left it is unconnectable only if it exists for sure - a connector that a later selection choice may still remove
+    does not make the (partial) graph infeasible.  The fast encoder tests feasibility after every selection step.
+    Decided on the function or on the private helper that holds the open-choice branch: whatever reports the connector
+    there (an append to the result, or a returned verdict) implies that has_conditional_existence() answered no."""
+    root = ctx.fn(f'{TRAV}:get_unconnected_connectors')
+
+    def open_choice(atom, truth):
+        return truth is True and isinstance(atom, ast.Call) and call_name(atom) == 'isinstance' and \
+            len(atom.args) == 2 and 'ConnectionChoiceNode' in norm(atom.args[1])
+    site = None
+    for fn in unit_functions(ctx.prog, root):
+        cfg = build_cfg(fn)
+        ge_open = cfg.edges_implying(open_choice)
+        if ge_open:
+            site = (fn, cfg, ge_open)
+            break
+    if site is None:
+        raise AnalysisError('get_unconnected_connectors: the branch for a still open connection choice was not found')
+    fn, cfg, ge_open = site
+
+    def unconditional(atom, truth):
+        if isinstance(atom, ast.Name):
+            atom = expand_locals(fn, atom, 1)       # a flag holding the answer
+        return truth is False and isinstance(atom, ast.Call) and call_name(atom) == 'has_conditional_existence'
+
+    def implies_unconditional(e):
+        # a returned verdict: False, or a conjunction one of whose operands is `not has_conditional_existence(..)`
+        if isinstance(e, ast.Constant) and e.value is False:
+            return True
+        if isinstance(e, ast.UnaryOp) and isinstance(e.op, ast.Not):
+            return unconditional(e.operand, False)
+        if isinstance(e, ast.BoolOp) and isinstance(e.op, ast.And):
+            return any(implies_unconditional(v) for v in e.values)
+        if isinstance(e, ast.Name):
+            return implies_unconditional(expand_locals(fn, e, 1)) if not isinstance(expand_locals(fn, e, 1), ast.Name) \
+                else False
+        return False
+    in_branch = [n for n in cfg.nodes if n.kind == 'stmt' and not cfg.can_reach(cfg.entry, n, blocked_edges=ge_open)]
+    apps = [n for n in in_branch if any(isinstance(c, ast.Call) and call_name(c) == 'append' for c in ast.walk(n.ast))]
+    rets = [n for n in in_branch if isinstance(n.ast, ast.Return) and n.ast.value is not None and fn is not root]
+    open_rets = [n for n in rets if not implies_unconditional(n.ast.value)]
+    if not apps and not rets:
+        raise AnalysisError('get_unconnected_connectors: nothing is reported in the open-choice branch')
+    desc = ('a connector whose connection choice is still open is reported unconnectable only after '
+            'has_conditional_existence() answered no (a conditionally existing connector may still be removed by a '
+            'later selection choice)')
+    sinks = apps + open_rets
+    if sinks:
+        guards.check_guarded(ctx, rule, fn, sinks, unconditional, set(),
+                             'open-choice-connector-only-if-unconditional', desc)
+    else:
+        ctx.ob(rule, fkey(fn, rule, 'open-choice-connector-only-if-unconditional'), True, fn.where, desc,
+               f'{len(rets)} returned verdict(s) conjoin the existence test')
+
+
 def check(ctx):
+    open_choice_connectors(ctx)
     edges.check_walks(ctx, anchors=[f'{NODES}:ConnectionChoiceNode.get_excluded_edges',
                                     f'{NODES}:ConnectionChoiceNode.get_conn_node_derivations',
                                     f'{TRAV}:get_confirmed_edges_for_node', f'{TRAV}:get_unconnected_connectors'])
@@ -357,6 +415,13 @@ def check(ctx):
 from ..selftest import V  # noqa: E402
 
 VARIANTS = [
+    V('open-choice-connector-reported-without-existence-test', 'graph/traversal.py',
+      [("            if not base_conn_node.is_valid(0) and conn_deg == 0 and \\\n                    not has_conditional_existence(graph, start_nodes, base_conn_node):\n",
+        "            if not base_conn_node.is_valid(0) and conn_deg == 0:\n")], key='open-choice-connector-only-if-unconditional'),
+    V('open-choice-connector-existence-test-as-guard-clause', 'graph/traversal.py',
+      [("            if not base_conn_node.is_valid(0) and conn_deg == 0 and \\\n                    not has_conditional_existence(graph, start_nodes, base_conn_node):\n",
+        "            is_conditional = has_conditional_existence(graph, start_nodes, base_conn_node)\n            if not base_conn_node.is_valid(0) and conn_deg == 0 and not is_conditional:\n")],
+      expect='silent', why='the existence test hoisted into a flag'),
     V('amount-filter-by-range', 'optimization/assign_enc/matrix.py',
       [("                n_invalid = set(tgt_n_conns) - set(n_conn)\n                if len(n_invalid) > 0:\n                    invalid_mask = np.zeros((len(tgt_n_conns),), dtype=bool)\n                    for n in n_invalid:\n                        invalid_mask |= tgt_n_conns == n\n                    n_tgt_combs = n_tgt_combs[~invalid_mask, :]\n",
         "                valid_mask = (tgt_n_conns >= min(n_conn)) & (tgt_n_conns <= max(n_conn))\n                n_tgt_combs = n_tgt_combs[valid_mask, :]\n")], key='A13g'),
